@@ -196,3 +196,14 @@ for n in ["gone_dropped_multi_att", "gone_dropped_small_att", "transit_carrier_d
 # the trace extraction of the full-width send harnesses costs ~10 min per failing check
 for n in ["send_plan_noatt_nofault", "send_plan_att_nofault", "send_plan_noatt_enobufs", "send_plan_att_enobufs"]:
     HARNESSES[n]["max_examined"] = 1
+
+# the full-width send harnesses take 5-10 min each: every property runs the one(s) that carry its own
+# claim in the quick tier and the others only in the thorough tier
+HARNESSES["send_plan_noatt_nofault"]["props"] = ["C01", "C02", "C13"]
+HARNESSES["send_plan_noatt_nofault"]["tiers"] = {"C13": "thorough"}
+HARNESSES["send_plan_att_nofault"]["props"] = ["C04", "C01", "C02"]
+HARNESSES["send_plan_att_nofault"]["tiers"] = {"C01": "thorough", "C02": "thorough"}
+HARNESSES["send_plan_noatt_enobufs"]["props"] = ["C13", "C02", "C01"]
+HARNESSES["send_plan_noatt_enobufs"]["tiers"] = {"C02": "thorough", "C01": "thorough"}
+HARNESSES["send_plan_att_enobufs"]["props"] = ["C13", "C04"]
+HARNESSES["send_plan_att_enobufs"]["tiers"] = {"C04": "thorough"}
